@@ -353,3 +353,5 @@ for _p in ("C01", "C16"):
 for _p in ("C15", "C14"):
     H(_p, "html/document", "VxH_C15_repaint_page", reach=["laid-out", "drawn"], bounds="one page with marks in {none, crop, cross, crop cross}, bleed 0 / 10px, page background or not; painted three times. The crop / cross marks are drawn through text/template, which the engine cannot execute: those 12 inputs are run natively only", native_fallback=["unsupported"], quick={"maxsteps": 200000000})
 H("C02", "html/layout", "VxH_C02_footnotes", reach=["laid-out", "several-pages"], bounds="a paragraph with 2..4 (thorough 5) footnotes (float: footnote), on one line or one per line, @footnote max-height in 7 values (2px .. 40px, none), 100px pages; VxAhem font model", quick={"maxsteps": 300000000, "shards": 6})
+for _p in ("C04", "C01"):
+    H(_p, "html/layout", "VxH_C04_ex_ch", reach=["laid-out"], bounds="a paragraph in a 10px body with one of 7 declarations using ex / ch (font-size, width, tab-size, hyphenate-limit-zone, margin); font configuration: VxAhem (x-height 0.8 em, '0' advance 1 em)", quick={"maxsteps": 100000000, "maxdepth": 2000})
